@@ -42,7 +42,7 @@ ObsAct ==
         \/ \E src \in Sources1(r) : Obs(src, <<0, 1>>, <<0>>)
         \/ Eq(reg[r], reg[0])
         \/ (reg[r].c = reg[0].c /\ Len(reg[r].s) = Len(reg[0].s) /\ Cmp(reg[r], reg[0]))
-        \/ (Len(reg[r].s) > 0 /\ ToInt(WholeReg(r), TRUE, 64))
+        \/ (Len(reg[r].s) > 0 /\ ToInt(WholeReg(r), TRUE, 64, ToIntRes(WholeReg(r), TRUE, 64)))
 
 \* each family keeps its hands off the others' registers (asserted on every transition it generates)
 Keeps(A, P) == A /\ Assert(P, "an action family disturbed registers that are not its own")
